@@ -38,6 +38,10 @@ def expr_stream(rng: random.Random, tier: str, n_random: int, depth_q: int = 4, 
     """(origin, expression) pairs: rule-directed patterns (every rule, every round), then random
     type-directed trees of mixed fragments and depths"""
     out = []
+    if rng.random() < 0.3 and all(len(n) == 1 for n in names):
+        # names of several characters: CPython shares one object for every one-character string, so only
+        # longer names can tell `==` from `is` on names
+        names = tuple({"x": "xx", "y": "y_1", "z": "zeta", "u": "uu", "v": "v2", "w": "ww", "t": "tau"}.get(n, n + n) for n in names)
     if rules:
         for rnd in range(rule_rounds if tier == "quick" else 3 * rule_rounds):
             g = gen.Gen(rng, names=names[: 1 + rnd % len(names)], kinds=kinds)
